@@ -33,6 +33,7 @@ PROBES = [
     "delivery-rejected-duplicate-segments",
     "delivery-rejected-nested-segments",
     "delivery-rejected-malformed-nibbles",
+    "nearest-unknown-without-argument",
     "response-early-then-retried",
     "shape-leaf",
     "shape-extension",
@@ -277,8 +278,12 @@ class World:
         fn = rep.fog.nearest_right if kind == "right" else rep.fog.nearest_unknown
         key_arg = (tuple, list, Nibbles)[self.ev % 3](key)
         oracle = "nearest-right" if kind == "right" else "nearest-unknown"
+        noarg = kind != "right" and not key and bool(cmd.get("noarg"))
+        if noarg:
+            self.st.probe("nearest-unknown-without-argument")
         try:
-            got = fn(key_arg)
+            # nearest_unknown's key is optional (the empty key): some clients leave it out
+            got = fn() if noarg else fn(key_arg)
             status = "ok"
         except PerfectVisibility as e:
             # a client that asks "is everything explored?" catches this class first; an
@@ -408,7 +413,7 @@ def generate_wide(rng):
         for _ in range(rng.choice([4, 8, 12])):
             kind = rng.choice(["unknown", "right"])
             qk = rng.choice([[15, 15, 15], [15, 15], [15, 15, 0], [0], [], [15, 15, 15, 15], [rng.randrange(16), rng.randrange(16), rng.randrange(16)]])
-            cmds.append({"op": "query", "r": r, "kind": kind, "qk": qk})
+            cmds.append({"op": "query", "r": r, "kind": kind, "qk": qk, "noarg": rng.randrange(2)})
         if rng.random() < 0.5:
             cmds.append({"op": "restart", "r": r})
     cmds.append({"op": "converge"})
@@ -432,13 +437,13 @@ def generate_long(rng):
         cmds.append({"op": "deliver", "r": r, "prefix": spine, "segs": [[a], [b]], "why": "deliver"})
         near = [spine + [a, 0], spine + [a], spine + [b], spine + [(a + 1) % 16], spine + [0], spine + [15, 15], spine, spine[:-1], spine[:-1] + [spine[-1] ^ 1], spine[: total // 2], []]
         for _ in range(rng.choice([4, 8])):
-            cmds.append({"op": "query", "r": r, "kind": rng.choice(["unknown", "right"]), "qk": rng.choice(near)})
+            cmds.append({"op": "query", "r": r, "kind": rng.choice(["unknown", "right"]), "qk": rng.choice(near), "noarg": rng.randrange(2)})
         if rng.random() < 0.5:
             cmds.append({"op": "restart", "r": r})
-            cmds.append({"op": "query", "r": r, "kind": rng.choice(["unknown", "right"]), "qk": rng.choice(near)})
+            cmds.append({"op": "query", "r": r, "kind": rng.choice(["unknown", "right"]), "qk": rng.choice(near), "noarg": rng.randrange(2)})
         if rng.random() < 0.5:
             cmds.append({"op": "deliver", "r": r, "prefix": spine + [a], "segs": [], "why": "deliver"})
-            cmds.append({"op": "query", "r": r, "kind": rng.choice(["unknown", "right"]), "qk": rng.choice(near)})
+            cmds.append({"op": "query", "r": r, "kind": rng.choice(["unknown", "right"]), "qk": rng.choice(near), "noarg": rng.randrange(2)})
     cmds.append({"op": "converge"})
     return {"prop": ID, "cfg": {}, "cmds": cmds}
 
@@ -541,7 +546,7 @@ def generate(rng):
                 for _ in range(rng.randint(1, 5)):
                     base = rng.choice(responses)[0]
                     qk = base[: rng.randint(0, len(base))] + [rng.randrange(16) for _ in range(rng.randint(0, 2))]
-                    cmds.append({"op": "query", "r": r, "kind": rng.choice(["unknown", "right"]), "qk": qk})
+                    cmds.append({"op": "query", "r": r, "kind": rng.choice(["unknown", "right"]), "qk": qk, "noarg": rng.randrange(2)})
             if rng.random() < p_restart:
                 cmds.append({"op": "restart", "r": r})
         if leaves:
@@ -559,7 +564,7 @@ def generate(rng):
             merged.append({"op": "converge"})
     merged.append({"op": "converge"})
     for r in (0, 1):
-        merged.append({"op": "query", "r": r, "kind": "unknown", "qk": []})
+        merged.append({"op": "query", "r": r, "kind": "unknown", "qk": [], "noarg": rng.randrange(2)})
         merged.append({"op": "query", "r": r, "kind": "right", "qk": [rng.randrange(16)]})
     return {"prop": ID, "cfg": {}, "cmds": merged}
 
